@@ -405,14 +405,15 @@ def r06_3(ctx) -> None:
         for t in cfg.nodes:
             if t.kind == "test" and isinstance(t.ast, ast.Call) and isinstance(t.ast.func, ast.Name) and t.ast.func.id == "isinstance" \
                     and len(t.ast.args) == 2:
-                txt = norm(t.ast.args[1])
-                if "Ed25519" in txt and "Ed448" in txt and "X25519" not in txt and "X448" not in txt:
-                    if not can_reach_exit(cfg, succ_by_label(cfg, t, "false")):
-                        guards.append(t)
+                tys = t.ast.args[1].elts if isinstance(t.ast.args[1], ast.Tuple) else [t.ast.args[1]]
+                names = [norm(x) for x in tys]
+                if names and all(("Ed25519" in x or "Ed448" in x) and "X25519" not in x and "X448" not in x for x in names):
+                    guards.append(t)
         for s in prim:
             n += 1
             cn = cfg.node_of(s.node)
-            ok = bool(guards) and cn is not None and cfg.must_pass(cfg.entry, cn, guards)
+            # the primitive is reachable only through the true edge of an isinstance test that names Ed25519 / Ed448 classes only
+            ok = bool(guards) and cn is not None and cn not in cfg.reachable(cfg.entry, edge_filter=lambda a, b, lab, _g=guards: not (a in _g and lab == "true"))
             ctx.check(ok, "R06.3", fn, s.node, f"{fn.short} :: Ed key guard", f"EdDSA {meth} runs on a key that was not checked to be Ed25519/Ed448",
                       "isinstance(op_key, (Ed25519…, Ed448…)) guard dominates", construct=f"EdDSA {meth} key guard")
     ctx.count("R06.3", n, 9, "curve gate obligations")
